@@ -365,7 +365,14 @@ impl Rt {
 }
 
 /// the function installed in the patched `Digest::cmp`
+/// fallback mode (see main.rs): the order of digests is the real byte order, only the choice variables stay symbolic
+pub fn real_order() -> bool {
+    static V: std::sync::OnceLock<bool> = std::sync::OnceLock::new();
+    *V.get_or_init(|| std::env::var("SYMORD_REAL_ORDER").is_ok())
+}
+
 pub fn hook(a: &[u8; 32], b: &[u8; 32]) -> Ordering {
+    if real_order() { return a.cmp(b); }
     RT.with(|r| {
         let mut g = r.borrow_mut();
         match g.as_mut() {
